@@ -183,6 +183,14 @@ def scenarios(rng: random.Random, tier: str):
         pre2 = (CFG + " | start fail | acc | rx 1 " + nodegen.cer("peer1.x", "4", n(), n()) + " | acc | rx 2 " +
                 nodegen.cer("peer2.x", "4", n(), n()))
         out.append(pre2 + f" | stop 0 {tmo} rxm_1:{nodegen.dpa(n(), n(), 'peer1.x')}_2:{nodegen.dpa(n(), n(), 'peer2.x')}")
+    # one peer with two established connections, both ready when stop() is called: each gets its DPR and is closed on its DPA
+    for tmo in (3, 6):
+        pre2 = (CFG + " | start fail | acc | rx 1 " + nodegen.cer("peer1.x", "4", n(), n()) + " | acc | rx 2 " +
+                nodegen.cer("peer1.x", "4", n(), n()))
+        out.append(pre2 + f" | stop 0 {tmo} rx_1_{nodegen.dpa(n(), n(), 'peer1.x')} rx_2_{nodegen.dpa(n(), n(), 'peer1.x')}")
+        out.append(pre2 + f" | stop 0 {tmo} rx_2_{nodegen.dpa(n(), n(), 'peer1.x')} rx_1_{nodegen.dpa(n(), n(), 'peer1.x')}")
+        out.append(pre2 + f" | stop 0 {tmo} rx_2_{nodegen.dpa(n(), n(), 'peer1.x')}")
+        out.append(pre2 + f" | eof 1 | stop 0 {tmo} rx_2_{nodegen.dpa(n(), n(), 'peer1.x')}")
     for rep in range(120 if tier == "quick" else 2500):
         evs = ["start " + rng.choice(["ok", "inp", "fail"])]
         # conn 0 is the dial to persistent peer3
